@@ -7,7 +7,7 @@ From PV Require Import Engine EngineProofs.
 From Coq Require Import QArith.
 Open Scope string_scope.
 Notation RG := (list val -> option string -> option string -> st -> R).
-Notation RP := (string -> option (list val) -> option string -> option string -> st -> R).
+Notation RP := (string -> option (list string) -> option (list val) -> option string -> option string -> st -> R).
 
 (** attempt n runs with retryCounter = n; success ends the loop *)
 Theorem C06_attempt_success : forall (rg : RG) (rp : RP) rc sp k max n s s1,
